@@ -768,6 +768,14 @@ func run(c caseT, test string) (v verdict) {
 	for try := 0; try < 3; try++ {
 		if sendCh != f.signed {
 			sendCh = f.raw // may have been reopened
+			// Half of the token-less / unknown-token requests travel on the channel
+			// that OWNS the live activated session: the token decides, not the channel.
+			if try == 0 && c.Seed%2 == 1 && f.legitCh != nil && (c.Token == "null" || c.Token == "unknown" || c.Token == "foreign" || c.Token == "near-miss") {
+				sendCh = f.legitCh
+				if len(v.classes) == 0 || v.classes[len(v.classes)-1] != "sent-on-the-channel-of-the-live-session" {
+					cls("sent-on-the-channel-of-the-live-session")
+				}
+			}
 		}
 		a = sendCh.send(req, token)
 		if !a.timeout {
